@@ -3,6 +3,7 @@
 package eval
 
 import (
+	"io"
 	"strings"
 
 	"grol.io/grol/ast"
@@ -118,4 +119,20 @@ func verifEval(s *State, prog ast.Node) object.Object {
 // VerifBindInt binds name to an integer in the root environment (used by harnesses of other packages).
 func VerifBindInt(s *State, name string, v int64) {
 	s.env.SetNoChecks(name, object.Integer{Value: v}, true)
+}
+
+// VerifAtTopLevel reports what in the interpreter state is not "back at the top level" between two inputs
+// (C10: scope, recursion depth and the output writer start from the top level again); "" when all is.
+func VerifAtTopLevel(s *State, out io.Writer) string {
+	switch {
+	case s.env != s.rootEnv:
+		return "current-scope-is-not-the-root-scope"
+	case s.depth != 0:
+		return "depth-is-not-zero"
+	case s.outDepth != 0:
+		return "output-capture-depth-is-not-zero"
+	case s.Out != out:
+		return "output-writer-was-replaced"
+	}
+	return ""
 }
